@@ -151,7 +151,7 @@ def dstep (d : DState) (toks : List String) : DState × String :=
     match parseWhere? spec with
     | some els =>
       -- the raised event is itself a node this case added (the harness deletes it afterwards)
-      match whereClausePanics els with
+      match whereClausePanics true els with
       | some _ => (d, "panic")
       | none => (d, "ok")
     | none => (d, "bad-op")
